@@ -1,5 +1,6 @@
 import PkLA.BoundedReal
 import PkLA.SpectralRadius
+import PkLA.HinfFreq
 import PkLA.Lmi
 import Pk.FitLoop
 import Mathlib.Tactic.Abel
@@ -9,8 +10,9 @@ import Mathlib.Analysis.SpecialFunctions.Trigonometric.Basic
 Over `Matrix _ _ ℝ`.  The 4×4-block LMI of `LmiEdmdHinfReg` / `LmiDmdcHinfReg` implies, for the identified
 (weighted) system `(A, B, C, D)`: strict dissipation with storage `xᵀP⁻¹x`, hence the ℓ2-gain bound
 `Σ‖y‖² ≤ γ² Σ‖u‖²` over *every* finite horizon from rest (the time-domain form of `‖G‖∞ ≤ γ`), and
-asymptotic stability.  Parseval (time-domain gain = H∞ norm) is not proved; the check measures the
-frequency-domain norm independently.  Property theorems only. -/
+asymptotic stability; and, in the frequency domain, `‖G(z)u‖ ≤ γ‖u‖` at every point `z` of the unit circle
+(`C10_hinf_norm`: the H∞ norm itself, obtained from the dissipation inequality applied to the real and imaginary
+parts of a complex solution - no appeal to Parseval).  The check also measures the frequency-domain norm independently.  Property theorems only. -/
 namespace Pk.C10
 open Matrix PkLA
 
@@ -151,6 +153,53 @@ theorem C10_l2_gain_lmi (P A : Matrix n n ℝ) (B : Matrix n m ℝ) (C : Matrix 
       ≤ γ^2 * (Finset.range N).sum (fun t => u t ⬝ᵥ u t) :=
   C10_l2_gain P A B C D γ hγ hP
     ((Matrix.isUnit_iff_isUnit_det P).mp (Matrix.PosDef.isUnit (brl_P_posDef P A B C D γ hP h))) h u N
+
+/-! ### frequency domain: the H∞ norm itself, with no appeal to Parseval -/
+
+/-- on the unit circle `z I − A` is invertible (no eigenvalue of `A` has modulus one) -/
+theorem C10_resolvent_exists (P A : Matrix n n ℝ) (B : Matrix n m ℝ) (C : Matrix k n ℝ) (D : Matrix k m ℝ) (γ : ℝ)
+    (hP : Pᵀ = P) (h : (brlLMI P A B C D γ).PosDef) (z : ℂ) (hz : ‖z‖ = 1) :
+    IsUnit (z • (1 : Matrix n n ℂ) - A.map Complex.ofReal).det := by
+  rw [isUnit_iff_ne_zero]
+  intro hdet
+  have hdetT : ((z • (1 : Matrix n n ℂ) - A.map Complex.ofReal)ᵀ).det = 0 := by rw [det_transpose]; exact hdet
+  obtain ⟨v, hv, hv0⟩ := (Matrix.exists_mulVec_eq_zero_iff).mpr hdetT
+  have hev : (Aᵀ.map Complex.ofReal) *ᵥ v = z • v := by
+    have e : (z • (1 : Matrix n n ℂ) - A.map Complex.ofReal)ᵀ = z • (1 : Matrix n n ℂ) - Aᵀ.map Complex.ofReal := by
+      rw [transpose_sub, transpose_smul, transpose_one, transpose_map]
+    rw [e, sub_mulVec, smul_mulVec, one_mulVec, sub_eq_zero] at hv0
+    exact hv0.symm
+  have := C10_stable P A B C D γ hP h z v hv hev
+  rw [hz] at this
+  exact lt_irrefl _ this
+
+/-- the transfer matrix of `(A, B, C, D)` at the point `z` -/
+noncomputable def transfer (A : Matrix n n ℝ) (B : Matrix n m ℝ) (C : Matrix k n ℝ) (D : Matrix k m ℝ) (z : ℂ) :
+    Matrix k m ℂ :=
+  C.map Complex.ofReal * (z • (1 : Matrix n n ℂ) - A.map Complex.ofReal)⁻¹ * B.map Complex.ofReal
+    + D.map Complex.ofReal
+
+/-- **`‖G‖∞ ≤ γ` without Parseval**: at every point `z` of the unit circle and for every complex input direction
+`u`, the frequency response `G(z) = C (zI − A)⁻¹ B + D` of the identified (weighted) system satisfies
+`‖G(z) u‖² ≤ γ² ‖u‖²` -/
+theorem C10_hinf_norm (P A : Matrix n n ℝ) (B : Matrix n m ℝ) (C : Matrix k n ℝ) (D : Matrix k m ℝ)
+    (γ : ℝ) (hγ : 0 < γ) (hP : Pᵀ = P) (h : (brlLMI P A B C D γ).PosDef)
+    (z : ℂ) (hz : ‖z‖ = 1) (u : m → ℂ) :
+    cnormSq (transfer A B C D z *ᵥ u) ≤ γ^2 * cnormSq u := by
+  have hPu : IsUnit P.det :=
+    (Matrix.isUnit_iff_isUnit_det P).mp (Matrix.PosDef.isUnit (brl_P_posDef P A B C D γ hP h))
+  have hR := C10_resolvent_exists P A B C D γ hP h z hz
+  set R := z • (1 : Matrix n n ℂ) - A.map Complex.ofReal with hRdef
+  set x : n → ℂ := R⁻¹ *ᵥ ((B.map Complex.ofReal) *ᵥ u) with hxdef
+  have hRx : R *ᵥ x = (B.map Complex.ofReal) *ᵥ u := by
+    rw [hxdef, mulVec_mulVec, mul_nonsing_inv R hR, one_mulVec]
+  have hx : z • x = (A.map Complex.ofReal) *ᵥ x + (B.map Complex.ofReal) *ᵥ u := by
+    rw [← hRx, hRdef, sub_mulVec, smul_mulVec, one_mulVec]; abel
+  have key := brl_freq_complex P A B C D γ hγ hP hPu h z hz x u hx
+  have e : transfer A B C D z *ᵥ u = (C.map Complex.ofReal) *ᵥ x + (D.map Complex.ofReal) *ᵥ u := by
+    rw [transfer, add_mulVec, hxdef, ← hRdef, mulVec_mulVec, mulVec_mulVec]
+  rw [e]; exact key
+
 
 section dmdc
 variable {p r m : Type} [Fintype p] [Fintype r] [Fintype m] [DecidableEq p] [DecidableEq r] [DecidableEq m]
